@@ -331,7 +331,7 @@ def run(ctx):
     if drift:
         vlib.log("MODEL-DRIFT: %d step(s) where the real antispam state/verdict differs from the transcription "
                  "(no property clause violated by that alone); e.g. %s" %
-                 (drift, ((ra.get("drift_samples") or []) + (rp["hist"].get("drift_samples") or ["-"]))[0][:400]))
+                 (drift, ((ra.get("drift_samples") or []) + (rp["hist"].get("drift_samples") or []) + (rp["misc"].get("drift_samples") or []) + ["-"])[0][:400]))
 
     # ---- evidence
     ctx.evaluations = ra["steps"] + rp["hist"]["steps"] + rp["size"]["executed"]
